@@ -19,7 +19,7 @@
   `none` for any other request.
 -/
 import PestModel.CharSet
-import PestModel.Props.C12
+import PestModel.CharClass
 import PestModel.Generated.AsciiTables
 
 open Pest Pest.CharSet
@@ -91,7 +91,7 @@ def handleCharSet : List String → Option String
     match k.toNat? with
     | some k =>
       match parseAlts k ts with
-      | some (alts, []) => showClass (C12.buildClass alts)
+      | some (alts, []) => showClass (buildClass alts)
       | _ => "bad-args"
     | none => "bad-args"
   | ["AS", name] => some <|
@@ -105,7 +105,7 @@ def handleCharSet : List String → Option String
   | ["NLM", input, pos] => some <|
     match pos.toNat? with
     | some pos =>
-      match C12.matchFirst (csDecStr input).toArray Generated.newlineAlts pos with
+      match matchFirst (csDecStr input).toArray Generated.newlineAlts pos with
       | some p => toString p
       | none => "none"
     | none => "bad-args"
